@@ -76,8 +76,27 @@ func (t *decTr) stmt(s ast.Stmt) string {
 			if c, ok := x.Rhs[0].(*ast.CallExpr); ok && t.dropAssignFrom[t.render(c.Fun)] {
 				return ""
 			}
-			if x.Tok == token.ASSIGN {
+			if x.Tok == token.ASSIGN || x.Tok == token.DEFINE {
 				return "DAssign " + q(t.render(x.Lhs[0])) + " " + q(t.render(x.Rhs[0]))
+			}
+		}
+		// `_, err = f(...)`: an effect; the call is recorded, the named results are assigned its text
+		if len(x.Lhs) == 2 && len(x.Rhs) == 1 {
+			if c, ok := x.Rhs[0].(*ast.CallExpr); ok {
+				return "DCall " + q(t.render(c))
+			}
+		}
+	case *ast.DeclStmt:
+		// `var x T` without a value: nothing happens
+		if gd, ok := x.Decl.(*ast.GenDecl); ok && gd.Tok == token.VAR {
+			all := true
+			for _, sp := range gd.Specs {
+				if vs, ok := sp.(*ast.ValueSpec); !ok || len(vs.Values) > 0 {
+					all = false
+				}
+			}
+			if all {
+				return ""
 			}
 		}
 	case *ast.IfStmt:
@@ -114,6 +133,13 @@ func (t *decTr) stmt(s ast.Stmt) string {
 				return "DReturn " + q("error")
 			}
 			return "DReturn " + q(t.render(x.Results[0]))
+		}
+		if len(x.Results) > 1 {
+			var rs []string
+			for _, r := range x.Results {
+				rs = append(rs, t.render(r))
+			}
+			return "DReturn " + q(strings.Join(rs, ", "))
 		}
 	}
 	w := &skelWalker{fset: t.g.fset}
